@@ -93,7 +93,7 @@ CellVal(kind, r, c) ==
      [] kind = "trans" -> Str(Pick(<<T_FreeTrans, T_EmptyMode>>, r + c))
      [] kind = "vib" -> Str(Pick(<<T_HarmonicVib, T_QRRHOVib, T_EinsteinVib, T_DebyeVib, T_emptymode>>, r + c))
      [] kind = "rot" -> Str(Pick(<<T_RigidRotor, V_EmptyModeUpper>>, r + c))
-     [] kind = "elec" -> Str(Pick(<<T_GroundStateElec, T_LSR, T_EmptyMode>>, r + c))
+     [] kind = "elec" -> Str(Pick(<<T_GroundStateElec, T_LSR, T_EmptyMode, T_ExtendedLSR>>, r + c))
      [] kind = "nucl" -> Str(Pick(<<T_EmptyNucl, T_EmptyMode>>, r + c))
 
 LayoutOK(s) == \A i \in 1..Len(s), j \in 1..Len(s) : i < j /\ s[i] = s[j] => Pool[s[i]].rep
